@@ -82,6 +82,79 @@ def sync_run(sc):
     return rec
 
 
+def atx_threads(sc):
+    """two OS threads share one ATX hat driver; the hat answers in command order.  A is held at its first read until B
+    has had the chance (0.3 s) to write as well -- with the driver's lock held over the whole exchange B cannot"""
+    from . import drivers, c18
+    import threading
+    import logging
+    c18._stubs()
+    import dali.driver.atxled as AT
+    hat = AT.SyncDaliHatDriver.__new__(AT.SyncDaliHatDriver)
+    hat.lock = threading.RLock()
+    hat.buffer = []
+    hat.LOG = logging.getLogger("x")
+    cmds = {"A": drivers.make_command(sc["unit"][0][0], sc["unit"][0][1]), "B": drivers.make_command(sc["unit"][1][0], sc["unit"][1][1])}
+    descs = {k: drivers.describe_command(c) for k, c in cmds.items()}
+    outcomes = {"A": sc["outcomes"][0], "B": sc["outcomes"][1]}
+    a_wrote, b_wrote = threading.Event(), threading.Event()
+    wire, lines = [], []
+    guard = threading.Lock()
+
+    class Ser:
+        def write(self, data):
+            me = threading.current_thread().name
+            with guard:
+                d, o = descs[me], (outcomes[me] if descs[me]["query"] else ["none", 0])
+                wire.append({"task": me, "frame": d["frame"], "bits": d["bits"], "twice": d["twice"], "outcome": o})
+                for _ in range(2 if d["twice"] else 1):
+                    lines.append((("J%02X\n" % o[1]) if o[0] == "val" else "N\n").encode())
+            (a_wrote if me == "A" else b_wrote).set()
+            return len(data)
+
+        def read_until(self, term):
+            with guard:
+                return lines.pop(0) if lines else b""
+    hat.conn = Ser()
+    results = {}
+
+    paused = []
+
+    def tracer(frame, event, arg):
+        # thread A stops where it is about to call read_line() for the first time (after its write), i.e. at the
+        # pre-emption point between the two halves of the exchange
+        if event == "call" and frame.f_code.co_name == "read_line" and not paused:
+            paused.append(1)
+            b_wrote.wait(0.3)
+        return None
+
+    def body(name):
+        import sys
+        if name == "B":
+            a_wrote.wait(2)
+        else:
+            sys.settrace(tracer)
+        try:
+            results[name] = ("none", hat.send(cmds[name]))
+        except Exception as e:  # noqa
+            results[name] = (type(e).__name__, None)
+        finally:
+            sys.settrace(None)
+    ts = [threading.Thread(target=body, args=(n,), name=n) for n in ("A", "B")]
+    for t in ts:
+        t.start()
+    for t in ts:
+        t.join(5)
+    callers = []
+    for n in ("A", "B"):
+        exc, res = results.get(n, ("hung", None))
+        callers.append({"name": n, "mode": "send", "unit": [dict(descs[n], dt=0)],
+                        "results": [drivers.describe_result(res)] if exc == "none" else [], "exc": exc, "closed": -1,
+                        "done": 1, "exceptions": 1})
+    return {"driver": "atx", "wire": wire, "callers": callers, "lock_free": 1, "out": {"hung": [], "setup_exc": "none"},
+            "info": {"loop_exc": "none"}, "now": 0, "iterations": 0, "nwrites": len(wire)}
+
+
 def daliserver_session(sc):
     """several commands over ONE connection (multiple_frames_per_connection=True): the fake server answers every
     request it receives, in order; each caller-visible result must belong to its own command"""
@@ -143,6 +216,9 @@ def sync_scenarios():
                 if drv == "atx" and outcome[0] == "err":
                     continue
                 scs.append({"driver": drv, "key": key, "n": 5, "outcome": outcome, "sync": 1, "tag": "sync"})
+    # two threads sharing the ATX hat driver (its send() is documented as thread safe by the lock it holds)
+    for unit in ([["q16", 1], ["st16", 2]], [["cfg", 1], ["q16", 2]], [["q16", 1], ["dapc", 2]], [["yn16", 3], ["q16", 4]]):
+        scs.append({"driver": "atx", "unit": unit, "outcomes": [["val", 42], ["val", 129]], "sync": 3, "tag": "sync-threads"})
     return scs
 
 
